@@ -359,6 +359,16 @@ class Obl:
         self.extra = extra or {}
 
 
+def witness_term(world, c, kf, args):
+    node = ast.parse(kf["witness"], mode="eval").body
+    m = world.import_module(c.module)
+    fv = I.FuncV("<witness>", f"{c.module}.<witness {kf['id']}>", node, m.env, m)
+    ip = I.Interp(world)
+    ip.pure = 1
+    t = ip.truth(call_clause(ip, fv, args))
+    return to_bool_term(t)
+
+
 def _positional(func, argv):
     a = func.node.args
     names = [p.arg for p in a.posonlyargs + a.args]
@@ -377,7 +387,7 @@ def _positional(func, argv):
     return args, kw
 
 
-def verify_contract(world, c, tier="quick", loop_support=None):
+def verify_contract(world, c, tier="quick", loop_support=None, known=None):
     """returns dict with obligations (verdicts), covers, meta.  Raises EngineError."""
     t_start = time.time()
     timeout = c.timeout_s or (10 if tier == "quick" else 60)
@@ -510,6 +520,26 @@ def verify_contract(world, c, tier="quick", loop_support=None):
     for o in obls:
         r = solve(o.pc, o.goal, timeout)
         rec = {"name": o.name, "kind": o.kind, "verdict": r["verdict"], "backend": r["backend"], "time": round(r["time"], 4)}
+        if r["verdict"] == "sat" and known:
+            for kf in known:
+                if not o.name.split("@")[0].startswith(kf.get("clause", "\0")):
+                    continue
+                try:
+                    wt = witness_term(world, c, kf, o.inputs or {})
+                except Exception as e:  # noqa: BLE001
+                    rec["known_error"] = repr(e)
+                    continue
+                r2 = solve(o.pc + [z3.Not(wt)], o.goal, timeout)
+                rec["time"] = round(rec["time"] + r2["time"], 4)
+                if r2["verdict"] == "unsat":
+                    # every counterexample lies inside the recorded witness class
+                    rec.update({"verdict": "unsat", "backend": r2["backend"], "known": {"id": kf["id"], "description": kf["description"]}, "known_witness_model": {k: S.to_json(v, r["model"]) for k, v in (o.inputs or {}).items()}})
+                    r = r2
+                else:
+                    r = r2
+                    rec["verdict"] = r2["verdict"]
+                    rec["note"] = f"fails outside the witness class of known finding {kf['id']}"
+                break
         if r["verdict"] == "sat" and "model" in r:
             try:
                 rec["model_args"] = {k: S.to_json(v, r["model"]) for k, v in (o.inputs or {}).items()}
